@@ -38,7 +38,7 @@ def run(prog, an, rep):
     rep.run_rules(prog, an, [
         lookup_rules, ranking_rules, outcome_table, early_exits,
         bypass_helper, exception_families, build_gate, pushed_before_lookup,
-        integration_vector, tips_refreshed, per_author])
+        integration_vector, tips_refreshed, per_author, in_sync_pairs])
 
 
 def per_author(prog, an, rep):
@@ -150,6 +150,10 @@ def tips_refreshed(prog, an, rep):
 
 def bypass_helper(prog, an, rep):
     common.bypass_helper(prog, an, rep, 'bypass_build_status', 'C06')
+
+
+def in_sync_pairs(prog, an, rep):
+    common.in_sync_pairs(prog, an, rep, 'C06')
 
 
 def build_gate(prog, an, rep):
